@@ -257,11 +257,16 @@ func families(thorough bool) []*family {
 	fams = append(fams, famFetchAttrs())
 	fams = append(fams, famFetchSections())
 	fams = append(fams, famFetchSectionPairs(thorough))
+	if thorough {
+		fams = append(fams, famFetchCross())
+	}
 	fams = append(fams, famFetchHeaderStrings())
 	fams = append(fams, famNumSetsFetch())
 	fams = append(fams, famNumSetsOther())
 	fams = append(fams, famSearchReturn())
 	fams = append(fams, famSearchStrings())
+	fams = append(fams, famSearchHeaderKeys())
+	fams = append(fams, famSearchDates())
 	fams = append(fams, famSearchTrees(thorough)...)
 	return fams
 }
@@ -975,6 +980,18 @@ func famFetchSections() *family {
 	}}
 }
 
+// famFetchCross: every attribute subset x every section shape (thorough tier).
+func famFetchCross() *family {
+	secs := allSections()
+	n := 96 * len(secs) * 2
+	return &family{name: "fetch-attributes-x-sections", n: n, at: func(cfg *config, i int) *tcase {
+		uid := i%2 == 1
+		o := attrsFromBits((i / 2) % 96)
+		secs[i/192].addTo(&o)
+		return fetchCase("fetch-attributes-x-sections", uid, benignSet(uid), &o, true, false, true)
+	}}
+}
+
 func famFetchSectionPairs(thorough bool) *family {
 	secs := allSections()
 	second := secs
@@ -1257,6 +1274,61 @@ func famSearchStrings() *family {
 		tc := searchCase(false, crit, nil, "", legal, limit, nt)
 		tc.desc = descStrs("SEARCH", pos, v)
 		return tc
+	}}
+}
+
+// famSearchHeaderKeys: every well-known header key (own SEARCH key) in several spellings, and
+// unknown ones (HEADER key), with an empty and a non-empty value.
+func famSearchHeaderKeys() *family {
+	keys := []string{"Bcc", "Cc", "From", "Subject", "To", "bcc", "CC", "FROM", "subject", "tO", "X-Spam", "Received", "Message-ID", "Subjec", "Tox"}
+	vals := []string{"", "hello", "bob@example.org"}
+	n := len(keys) * len(vals) * 2
+	return &family{name: "search-header-keys", n: n, at: func(cfg *config, i int) *tcase {
+		neg := i%2 == 1
+		v := vals[(i/2)%len(vals)]
+		k := keys[i/(2*len(vals))]
+		leaf := imap.SearchCriteria{Header: []imap.SearchCriteriaHeaderField{{Key: k, Value: v}}}
+		crit := &leaf
+		if neg {
+			crit = &imap.SearchCriteria{Not: []imap.SearchCriteria{leaf}}
+		}
+		return searchCase(false, crit, nil, "", true, false, true)
+	}}
+}
+
+// famSearchDates: each date field with dates whose day has one and two digits, in three zones
+// (only the calendar date in the value's own zone counts), alone and as the ON-shaped pair.
+func famSearchDates() *family {
+	zones := []*time.Location{time.UTC, time.FixedZone("", 5*3600+30*60), time.FixedZone("", -8*3600)}
+	days := [][3]int{{2024, 3, 5}, {2024, 3, 10}, {1999, 12, 31}, {2024, 2, 29}, {2024, 3, 9}, {2024, 3, 11}}
+	hours := []int{0, 23}
+	// field 0..3 = Since, Before, SentSince, SentBefore; 4 = ON-shaped, 5 = SENTON-shaped, 6 = Since+Before 2 days apart
+	const nf = 7
+	n := nf * len(days) * len(zones) * len(hours)
+	return &family{name: "search-dates", n: n, at: func(cfg *config, i int) *tcase {
+		h := hours[i%len(hours)]
+		z := zones[(i/len(hours))%len(zones)]
+		d := days[(i/(len(hours)*len(zones)))%len(days)]
+		f := i / (len(hours) * len(zones) * len(days))
+		t := time.Date(d[0], time.Month(d[1]), d[2], h, 59, 58, 0, z)
+		var c imap.SearchCriteria
+		switch f {
+		case 0:
+			c.Since = t
+		case 1:
+			c.Before = t
+		case 2:
+			c.SentSince = t
+		case 3:
+			c.SentBefore = t
+		case 4:
+			c.Since, c.Before = t, t.Add(24*time.Hour)
+		case 5:
+			c.SentSince, c.SentBefore = t, t.Add(24*time.Hour)
+		case 6:
+			c.Since, c.Before = t, t.Add(48*time.Hour)
+		}
+		return searchCase(i%3 == 1, &c, nil, "", true, false, true)
 	}}
 }
 
